@@ -68,8 +68,8 @@ def paths(edges, max_len, rng, limit):
 
 SHAPES = {
     "linear": [dict(width=3, depth=1), dict(width=5, depth=3), dict(width=1, depth=1)],
-    "log16": [dict(width=3, depth=1), dict(width=5, depth=3), dict(width=7, depth=1)],
-    "log8": [dict(width=3, depth=1), dict(width=5, depth=3), dict(width=13, depth=1)],
+    "log16": [dict(width=3, depth=1), dict(width=5, depth=3), dict(width=7, depth=1), dict(width=3, depth=3, max_count=10**6, num_reserved=200)],
+    "log8": [dict(width=3, depth=1), dict(width=5, depth=3), dict(width=13, depth=1), dict(width=7, depth=3, max_count=70000, num_reserved=40)],
     "hll": [dict(p=7, seed=0), dict(p=8, seed=2**63)],
     "hh": [dict(width=3, depth=1, max_key_len=3), dict(width=1, depth=1, max_key_len=1), dict(width=5, depth=3, max_key_len=7)],
 }
@@ -77,6 +77,9 @@ OPS = {1: (b"a", 1), 2: (b"\x00b", 3)}
 
 
 def new_sketch(kind, shape, shm):
+    if kind in ("log16", "log8") and "max_count" in shape:
+        # non-default parameters, built by the class itself (counts stay inside the reserved range)
+        return impl.CM_CLASSES[kind](shape["width"], shape["depth"], shape["max_count"], shape["num_reserved"], shared_memory=shm)
     if kind in ("linear", "log16", "log8"):
         return impl.countmin.CountMin(kind, shape["width"], shape["depth"], shared_memory=shm)
     if kind == "hll":
@@ -97,8 +100,16 @@ def attach(kind, shape, name, how, owner=None):
 
 def owner_args(kind, shape):
     if kind in ("linear", "log16", "log8"):
-        return {"cms_type": kind, "width": shape["width"], "depth": shape["depth"]}
+        a = {"cms_type": kind, "width": shape["width"], "depth": shape["depth"]}
+        if "max_count" in shape:
+            a.update(max_count=shape["max_count"], num_reserved=shape["num_reserved"])
+        return a
     return dict(shape)
+
+
+def public_params(sk):
+    names = ("width", "depth", "max_count", "num_reserved", "base", "p", "seed", "max_key_len")
+    return {n: (float(getattr(sk, n)) if n == "base" else int(getattr(sk, n))) for n in names if hasattr(sk, n)}
 
 
 def state_of(sk):
@@ -183,6 +194,9 @@ def replay(report, path, kind, shape, rng, from_file=False):
             for hname, h in [("owner", owner)] + [("view%d" % k, v) for k, v in views.items()]:
                 if h is not None and state_of(h) != want:
                     return bad("%s observes a state different from the in-memory twin's" % hname, i)
+                if h is not None and public_params(h) != public_params(twin):
+                    return bad("%s has parameters %s, an ordinary sketch of the same arguments %s" % (
+                        hname, public_params(h), public_params(twin)), i)
             if name is not None:
                 should = owner is not None
                 if listed(name) != should:
